@@ -56,6 +56,17 @@ def on_line(code, lineno):
                 f.write(json.dumps([k, fn, text]))
             os.killpg(os.getpgid(0), signal.SIGKILL)
         return None
+    if mode == "mkdirgate":
+        # barrier just before the statement that creates the cache directory: every participant is held here until
+        # the controller releases all of them together
+        if fn == "make_dll" and "makedirs(" in text and "mkdir" not in matched:
+            matched.add("mkdir")
+            at = os.path.join(ctrl, tag + ".mkdir.at")
+            open(at, "w").close()
+            t0 = time.monotonic()
+            while not os.path.exists(os.path.join(ctrl, "release")) and time.monotonic() - t0 < 120:
+                time.sleep(0.0002)
+        return None
     for gfn, needle, gname in GATES:
         if fn == gfn and needle in text:
             matched.add(gname)
@@ -73,6 +84,14 @@ if mode != "plain":
         mon.set_local_events(TOOL, code, mon.events.LINE)
 
 out = {"tag": tag, "pid": os.getpid()}
+if mode.startswith("retry"):
+    # first attempt in this process (the scripted compiler fails once); the outcome of the second attempt is
+    # what is reported
+    try:
+        core.load_model(model_name)
+        out["first_attempt"] = "succeeded"
+    except BaseException as exc:  # noqa
+        out["first_attempt"] = repr(exc)[:300]
 try:
     model = core.load_model(model_name)
     q = np.array([0.01, 0.05, 0.2])
